@@ -52,6 +52,7 @@ def history():
     H.append(rec(C.IN_MOVED_TO, b"d2", isdir=True, cookie=15))
     H.append(rec(C.IN_MOVED_FROM, b"d2", isdir=True, cookie=16))  # directory moved out
     H.append(rec(C.IN_DELETE, b"e", isdir=True))
+    H.append({"mask": C.IN_DELETE_SELF, "bit": C.IN_DELETE_SELF, "name": b"", "path": ROOT, "cookie": 0, "inside": None, "isdir": False})   # the root itself goes last
     return H
 
 
